@@ -57,9 +57,10 @@ inductive Pc where
   | pre (r : Req) (b : Nat)                    -- next: `completed.load(SeqCst)` right after reserving
   | wait (r : Req) (b : Nat)                   -- next: `yielded.load(Acquire)`
   | chk (r : Req) (b : Nat)                    -- next: `completed.load(Relaxed)`
+  | ent (r : Req) (b : Nat)                    -- our turn; next: `completed.load(SeqCst)` before touching the iterator
   | cs (r : Req) (b : Nat) (acc : List Nat)    -- next: entry of the wrapped `next()`
   | ins (r : Req) (b : Nat) (acc : List Nat)   -- next: exit of the wrapped `next()`
-  | setC (r : Req) (b : Nat)                   -- next: `completed.store(true, SeqCst)`
+  | setC (r : Req) (b : Nat) (acc : List Nat)  -- the iterator returned `None`; next: `completed.store(true, SeqCst)`
   | pub (r : Req) (b : Nat) (acc : List Nat)   -- next: `yielded.fetch_add(r.len, AcqRel)`
   | unw (b n : Nat)                            -- unwinding out of `next()`: next: `completed.store(true, SeqCst)` by the guard
   | dead (b n : Nat)                           -- unwound out of the critical section
@@ -100,29 +101,31 @@ def step (s : Script) (t : Nat) (c : Cfg) : Cfg :=
   | .pre r b =>
     if c.C then setTh c t (ret x r .fin) else setTh c t { x with pc := .wait r b }
   | .wait r b =>
-    if b = c.Y then
-      if iters r b = 0 then setTh c t { x with pc := .setC r b }   -- empty index range: nothing is pulled
-      else setTh c t { x with pc := .cs r b [] }
+    if b = c.Y then setTh c t { x with pc := .ent r b }
     else if b < c.Y then setTh c t (ret x r .fin)
     else setTh c t { x with pc := .chk r b }
   | .chk r b =>
     if c.C then setTh c t (ret x r .fin) else setTh c t { x with pc := .wait r b }
+  | .ent r b =>
+    if c.C then setTh c t (ret x r .fin)
+    else if iters r b = 0 then setTh c t { x with pc := .setC r b [] }   -- empty index range: nothing is pulled
+    else setTh c t { x with pc := .cs r b [] }
   | .cs r b acc => setTh c t { x with pc := .ins r b acc }
   | .ins r b acc =>
     let c' := { c with P := c.P + 1 }
     match s c.P with
     | .some v =>
       let acc' := acc ++ [v]
-      if acc'.length = iters r b then setTh c' t { x with pc := .pub r b acc' }
+      if acc'.length = iters r b then
+        -- the loop is over; `fetch_n` marks completion if its buffer is shorter than the chunk size
+        if acc'.length < r.len then setTh c' t { x with pc := .setC r b acc' }
+        else setTh c' t { x with pc := .pub r b acc' }
       else setTh c' t { x with pc := .cs r b acc' }
-    | .none =>
-      if r.isSingle then setTh c' t { x with pc := .setC r b }
-      else if r.isChunk ∧ acc = [] then setTh c' t { x with pc := .setC r b }
-      else setTh c' t { x with pc := .pub r b acc }
+    | .none => setTh c' t { x with pc := .setC r b acc }
     | .panic => setTh c' t { x with pc := .unw b r.len }
-  | .setC r b =>
+  | .setC r b acc =>
     if r.isSingle then setTh { c with C := true } t (ret x r .fin)
-    else setTh { c with C := true } t { x with pc := .pub r b [] }
+    else setTh { c with C := true } t { x with pc := .pub r b acc }
   | .pub r b acc =>
     let c' := { c with Y := c.Y + r.len }
     match acc with
@@ -152,9 +155,10 @@ def emit (s : Script) (t : Nat) (c : Cfg) : Option Ev :=
   | .pre _ _ => some (.ld .C .seqcst (if c.C then 1 else 0))
   | .wait _ _ => some (.ld .Y .acquire c.Y)
   | .chk _ _ => some (.ld .C .relaxed (if c.C then 1 else 0))
+  | .ent _ _ => some (.ld .C .seqcst (if c.C then 1 else 0))
   | .cs _ _ _ => some .srcEnter
   | .ins _ _ _ => some (.srcExit (s c.P))
-  | .setC _ _ => some (.st .C .seqcst 1)
+  | .setC _ _ _ => some (.st .C .seqcst 1)
   | .pub r _ _ => some (.faa .Y .acqrel c.Y r.len)
   | .unw _ _ => some (.st .C .seqcst 1)
   | .dead _ _ => none
